@@ -453,3 +453,34 @@ def rule_string_minimal(ctx: Ctx, rid="C05.STRING-MINIMAL"):
                       witness=w, site=r.site, text=r.pattern)
         return
     raise AnalysisError("anchor vanished: STRING_LITERAL rule")
+
+
+# ------------------------------------------------------------------ engine model validation (thorough tier)
+def validate_engine(ctx: Ctx, n=20000):
+    """Cross-check the leftmost-first automaton model against the stdlib `re` engine on the master
+    regex rebuilt from the extracted patterns (this runs `re`, not pyab_experiment): a seeded sample
+    of strings assembled from token fragments and separators.  A disagreement means the model is
+    wrong -> ANALYSIS-ERROR, never a verdict."""
+    import os
+    import random
+    import re
+    rnd = random.Random(int(os.environ.get("VERIF_SEED", "0") or 0))
+    total = 0
+    for state, lc in ctx.lexers.items():
+        L = ctx.lexicon(state)
+        master = re.compile("|".join(f"(?P<{r.name}>{r.pattern})" for r in lc.rules))
+        names = [r.name for r in lc.rules]
+        frags = ["if", "in", "not", "not in", "not  in", "and", "or", "else", "else if", "elseif", "def", "salt", "splitters",
+                 "weighted", "return", "order_id", "index", "x", "_", "A", "9", "1", "12", "1.5", ".", "..", "=", "==", ">", ">=",
+                 "<", "<=", "!", "!=", "-", ",", ":", "{", "}", "(", ")", '"', "'", '"a"', "'b'", '"a\'b"', "/", "//", "/*", "*/",
+                 "*", " ", "  ", "\n", "\t", "\r", "é", "٣", " ", "→", "#", "@", ";", "\\"]
+        for _ in range(n):
+            s = "".join(rnd.choice(frags) for _ in range(rnd.randint(1, 6)))
+            total += 1
+            m = master.match(s)
+            want = (names.index(m.lastgroup), m.end()) if m and m.end() > 0 else None
+            got = L.select(s)
+            if got != want:
+                raise AnalysisError(f"regex engine model disagrees with stdlib re in state {state} on {s!r}: model {got}, re {want}")
+    ctx.rep.note(f"engine model validated against stdlib re on {total} seeded strings (no disagreement)")
+    ctx.rep.extra["engine_model_validation_strings"] = total
